@@ -239,6 +239,9 @@ def extra_runs(tier, rng, ctx):
                 if "panicked" in se or code not in (0, 1, 2):
                     fails.append(("panic:%s" % fmt, "%s %s/%s: the CLI panicked or was killed (exit %s): %s" % (label, mode, fmt, code, se[:300]), rep))
                     continue
+                if code != 0 and "UnsignedIntegerExceededRange" in se:
+                    fails.append(("bson-unsigned-range", "%s %s/%s: BSON has no unsigned 64-bit integer: %s" % (label, mode, fmt, se[:200]), rep))
+                    continue
                 if code != 0:
                     fails.append(("query-failed:%s" % game, "%s %s/%s: exit %s on a valid reply: %s" % (label, mode, fmt, code, se[:300]), rep))
                     continue
